@@ -16,7 +16,7 @@ residue at `start`).  Everything else (the loop, `_rewind`, `placed_nodes`, the 
 `_handle_random_walk`, `_compose_system`, the engine) is the real code.
 
 Model side: `Walk.run` (lean/PolyplyVerif/Model/Walk.lean).  Correspondence: the contents of the real
-engine (`gndx_to_tree` keys with their coordinates) and the trial `(mol_idx, prev_node, current_node)`
+engine (the residues with a finite position, read through `get_point`, with their coordinates) and the trial `(mol_idx, prev_node, current_node)`
 at every trial, the final engine, `list(search_tree.edges)`.  Oracle: the specification predicates of
 the model file (`specRollback`, `specGrownFromPositioned`, `specOthersFixed`, `specComplete`,
 `specSuppliedKept`) evaluated by the Lean driver on the trace of the real code.
@@ -118,17 +118,48 @@ def adjacency(meta):
 
 
 def snapshot(engine, top, ignore):
+    """the residues that have a position (what the property talks about): `engine.get_point(mol_idx, node)`
+    is finite; molecules the engine does not know (ignored ones) have none"""
     snap = []
     for idx, meta in enumerate(top.molecules):
         items = []
         for node in meta.nodes:
-            gndx = engine.nodes_to_gndx.get((idx, node))
-            if gndx is None:
+            try:
+                point = engine.get_point(idx, node)
+            except KeyError:
                 continue
-            if gndx in engine.gndx_to_tree:
-                items.append([int(node), point_id(engine.positions[gndx])])
+            if np.all(np.isfinite(point)):
+                items.append([int(node), point_id(point)])
         snap.append([idx, items])
     return snap
+
+
+def internal_miscount(engine):
+    """Optional stream on the engine's internal bookkeeping, only where it is observable in the expected
+    form: every residue with a finite row of the position table is listed exactly once in the index lists
+    (`defined_idxs`) and — if present — is a key of `gndx_to_tree`; a residue without position is in neither.
+    Returns (list of offending global indices, list of internal names that could not be observed)."""
+    missing, bad = [], set()
+    try:
+        positions = np.asarray(engine.positions, dtype=float)
+        finite = set(int(g) for g in np.where(np.all(np.isfinite(positions), axis=1))[0])
+    except Exception:  # pylint: disable=broad-except
+        return [], ["positions"]
+    lists = getattr(engine, "defined_idxs", None)
+    if isinstance(lists, list) and all(isinstance(l, (list, np.ndarray)) for l in lists):
+        listed = {}
+        for idxs in lists:
+            for gndx in idxs:
+                listed[int(gndx)] = listed.get(int(gndx), 0) + 1
+        bad |= set(g for g in set(listed) | finite if listed.get(g, 0) != (1 if g in finite else 0))
+    else:
+        missing.append("defined_idxs")
+    table = getattr(engine, "gndx_to_tree", None)
+    if isinstance(table, dict):
+        bad |= set(int(k) for k in table) ^ finite
+    else:
+        missing.append("gndx_to_tree")
+    return sorted(bad), missing
 
 
 _LOWERED = {}
@@ -142,19 +173,22 @@ def lowered_engine_class(new_threshold):
     if new_threshold in _LOWERED:
         return _LOWERED[new_threshold]
     import types
-    from tables import walk as walk_tables
-    from polyply.src.nonbond_engine import NonBondEngine
-    literal = walk_tables.extract()["engTreeThreshold"]
-    func = NonBondEngine.add_positions
-    code = func.__code__
-    hits = [i for i, c in enumerate(code.co_consts) if type(c) is int and c == literal]
-    if len(hits) != 1:
-        raise RuntimeError("literal %r not found exactly once in NonBondEngine.add_positions" % literal)
-    consts = tuple(new_threshold if i == hits[0] else c for i, c in enumerate(code.co_consts))
-    patched = types.FunctionType(code.replace(co_consts=consts), func.__globals__, func.__name__,
-                                 func.__defaults__, func.__closure__)
-    patched.__kwdefaults__ = func.__kwdefaults__
-    _LOWERED[new_threshold] = type("NonBondEngineLowT", (NonBondEngine,), {"add_positions": patched})
+    _LOWERED[new_threshold] = None      # None = the literal cannot be located: the real threshold is used
+    try:
+        from tables import walk as walk_tables
+        from polyply.src.nonbond_engine import NonBondEngine
+        literal = walk_tables.extract()["engTreeThreshold"]
+        func = NonBondEngine.add_positions
+        code = func.__code__
+        hits = [i for i, c in enumerate(code.co_consts) if type(c) is int and c == literal]
+        if len(hits) == 1:
+            consts = tuple(new_threshold if i == hits[0] else c for i, c in enumerate(code.co_consts))
+            patched = types.FunctionType(code.replace(co_consts=consts), func.__globals__, func.__name__,
+                                         func.__defaults__, func.__closure__)
+            patched.__kwdefaults__ = func.__kwdefaults__
+            _LOWERED[new_threshold] = type("NonBondEngineLowT", (NonBondEngine,), {"add_positions": patched})
+    except Exception:  # pylint: disable=broad-except
+        pass
     return _LOWERED[new_threshold]
 
 
@@ -192,8 +226,11 @@ def run_real(case):
     builder = build_system.BuildSystem(top, density=None, start_dict=start_dict, box=BOX.copy(),
                                        grid=np.array([[5.0, 5.0, 5.0]]), ignore=list(case["ignore"]), **kwargs)
     engine_cls = None
+    notes = []
     if case.get("tree_threshold") is not None:
         engine_cls = lowered_engine_class(case["tree_threshold"])
+        if engine_cls is None:
+            notes.append("tree_threshold_not_lowered")
     if case["maxiter"] is not None:
         # RandomWalk's own `maxiter` cannot be passed through BuildSystem's keyword of the same name
         builder.rwargs = dict(builder.rwargs, maxiter=case["maxiter"])
@@ -248,14 +285,15 @@ def run_real(case):
     engine = builder.nonbond_matrix
     if result["finished"] or result["stuck"]:
         rec.trace.append(dict(trial=None, eng=snapshot(engine, top, case["ignore"])))
-    # "exactly one position": every positioned residue is listed once in the engine's index lists
-    listed = {}
+    # "exactly one position": position table vs the engine's index lists, where these are observable
     if engine is not None:
-        for idxs in engine.defined_idxs:
-            for gndx in idxs:
-                listed[int(gndx)] = listed.get(int(gndx), 0) + 1
-        result["miscounted"] = sorted(g for g in set(listed) | set(int(k) for k in engine.gndx_to_tree)
-                                      if listed.get(g, 0) != (1 if g in engine.gndx_to_tree else 0))
+        try:
+            result["miscounted"], unobservable = internal_miscount(engine)
+        except Exception:  # pylint: disable=broad-except
+            result["miscounted"], unobservable = [], ["engine internals"]
+        if unobservable:
+            notes.append("internal_state_not_observable")
+    result["notes"] = notes
     # write-back of update_positions_in_molecules (only reached on success)
     writeback = None
     if result["finished"]:
@@ -359,6 +397,8 @@ def judge(ctx, case, real, run_ans, spec_ans):
         key = json.dumps([case["mols"], case["ignore"], case["nrewind"], case["maxiter"], case.get("bs_maxiter"),
                           case.get("tree_threshold"), _bits(case["sched"][:real["used"]])],
                          sort_keys=True)
+    for note in real.get("notes", []):
+        ctx.tally(**{note: True})
     ctx.traces += 1
     ctx.case(key, sample=dict(mols=[dict(n=len(s["nodes"]), edges=s["edges"], build=sorted(s["build"])) for s in case["mols"]],
                               nrewind=case["nrewind"], sched=_bits(case["sched"][:real["used"]]), end=impl_end),
